@@ -242,7 +242,8 @@ def handle5 (op : String) (a obs : List String) : Option Verdict :=
         field obs "old_state" == "alive" && (rebind || (od == "true" && os == "true")))]
     some (model, prop)
   | "keepalive" => do
-    let ka ← parseNat (get a 1)
+    -- `override`: switched on, then off again on the same builder: off is what was requested last
+    let ka ← if get a 1 == "override" then some 0 else parseNat (get a 1)
     -- idle timeout 600 ms on both sides, observed after 2 s: the interval reaches quinn unchanged
     -- (`Generated.KEEP_ALIVE_PASSED_UNCHANGED`), so pings every `ka` < 600 ms keep it alive
     let kept := Generated.KEEP_ALIVE_PASSED_UNCHANGED && 0 < ka && ka < 600
